@@ -3,8 +3,9 @@
 sub-agent that seeds defects (it gets the property text and a scratch worktree, nothing from /verif)."""
 import json, sys
 pid, wt = sys.argv[1:3]
-round2 = len(sys.argv) > 3 and sys.argv[3] in ("r2", "r3")
-round3 = len(sys.argv) > 3 and sys.argv[3] == "r3"
+round2 = len(sys.argv) > 3 and sys.argv[3] in ("r2", "r3", "r4")
+round3 = len(sys.argv) > 3 and sys.argv[3] in ("r3", "r4")
+round4 = len(sys.argv) > 3 and sys.argv[3] == "r4"
 p = {json.loads(l)["id"]: json.loads(l) for l in open("/verif/properties.jsonl")}[pid]
 txt = '''You are helping test a verification tool by writing *seeded defects* for an open-source Go project (sassoftware/relic, a package-signing tool and server). You work ONLY inside your own scratch git worktree at {wt} (a checkout of the project). Do not read or write anything under /verif or /repo, and do not look for any verification tooling: your changes must be independent of it.
 
@@ -38,6 +39,9 @@ if round2:
     txt = txt.replace("Your job: produce THREE", "This is a second round of testing: earlier testers mostly weakened the most obvious guard in the property's central function. Prefer less obvious sites this time: helpers and their contracts, callers, alternative or rarely taken code paths, configuration handling, error paths, sibling implementations of the same mechanism in other packages.\n\nYour job: produce THREE")
 if round3:
     txt = txt.replace("This is a second round of testing:", "This is a third round of testing: two earlier rounds of testers already produced six changes for this property, covering its central function and its most visible helpers. Look for mechanisms they are unlikely to have used: an interaction between two packages, state that outlives one call, an assumption a callee makes about its caller, an alternative entry point (another command, another signer, the server versus the standalone path), a data-dependent corner of an otherwise correct routine. As before:")
-suffix = "-r3" if round3 else ("-r2" if round2 else "")
+if round4:
+    txt = txt.replace("This is a third round of testing: two earlier rounds of testers already produced six changes", "This is a fourth round of testing: three earlier rounds of testers already produced nine changes")
+    txt = txt.replace("As before:", "Also consider: a change that is correct for every input the existing fixtures contain but wrong for a legal input of another shape (another key type, digest, size class, optional field present or absent); a change in how two versions of the same data are kept consistent; a resource whose lifetime is now tied to the wrong owner. As before:")
+suffix = "-r4" if round4 else ("-r3" if round3 else ("-r2" if round2 else ""))
 open("/tmp/prompt-%s%s.txt" % (pid, suffix), "w").write(txt)
 print("/tmp/prompt-%s%s.txt" % (pid, suffix))
